@@ -27,7 +27,7 @@ Print Assumptions C20_cmdline_total_safe.
    its callback views are valid and lie inside cl *)
 Theorem C20_cmdline_total_safe_view : forall (m : mem) (cl : view) (opts : list copt),
   valid_view m cl -> vlen cl < W64 -> Forall (valid_opt m) opts ->
-  safeT m cl (parse_loop m opts (S (N.to_nat (vlen cl))) cl) (fun _ => True).
+  safeT m cl (parse_loop m sub_string opts (S (N.to_nat (vlen cl))) cl) (fun _ => True).
 Proof. exact parse_loop_total_safe. Qed.
 Print Assumptions C20_cmdline_total_safe_view.
 
@@ -36,6 +36,13 @@ Theorem C20_cmdline_unbalanced_quote_stops :
   fst (run_cmdline [([97], true)] d32_cl false) = AssertStop a_sub_string.
 Proof. exact unbalanced_quote_stops. Qed.
 Print Assumptions C20_cmdline_unbalanced_quote_stops.
+
+(* history (D32): with the bound check of the code before the repair, from + size <= _length computed mod 2^64,
+   the same input leaves the buffer *)
+Theorem C20_cmdline_refuted_before_fix :
+  fst (run_cmdline_with (sub_string_with chk_wrapping) [([97], true)] d32_cl false) = UB oob.
+Proof. exact parse_wrapping_check_refuted. Qed.
+Print Assumptions C20_cmdline_refuted_before_fix.
 
 Example C20_cmdline_ex1 :   (* foo bar=x "baz=a b" z   with options foo, bar=, baz= : three callbacks, 2nd and 3rd inside *)
   let cl := [102;111;111;32;98;97;114;61;120;32;34;98;97;122;61;97;32;98;34;32;122] in
